@@ -77,6 +77,28 @@ Check c08_nonsingular_accepted_r : forall (n : nat) (A : mat R), (0 < n)%nat ->
   exists t0, 0 < t0 /\ forall tol, 0 < tol <= t0 -> forall b : vec R, exists x, ge n n A n b tol = Ok x.
 Print Assumptions c08_nonsingular_accepted_r.
 
+(* an accepted system is non-singular (no left and no right null vector) and the returned vector is its ONLY
+   solution (Proofs/GaussUnique.v) *)
+From SV Require Import Proofs.GaussUnique.
+Theorem c08_unique : forall (n : nat) (A : mat R) (b : vec R) (tol : R) (x : vec R),
+  0 < tol -> ge n n A n b tol = Ok x ->
+  (forall w : vec R, (forall j, (j < n)%nat -> Rsum_n n (fun i => w i * A i j) = 0) ->
+                     forall i, (i < n)%nat -> w i = 0) /\
+  (forall z : vec R, (forall i, (i < n)%nat -> Rsum_n n (fun j => A i j * z j) = 0) ->
+                     forall j, (j < n)%nat -> z j = 0) /\
+  forall y : vec R, (forall i, (i < n)%nat -> Rsum_n n (fun j => A i j * y j) = b i) ->
+                    forall j, (j < n)%nat -> y j = x j.
+Proof. exact Proofs.GaussUnique.c08_unique. Qed.
+Check c08_unique : forall (n : nat) (A : mat R) (b : vec R) (tol : R) (x : vec R),
+  0 < tol -> ge n n A n b tol = Ok x ->
+  (forall w : vec R, (forall j, (j < n)%nat -> Rsum_n n (fun i => w i * A i j) = 0) ->
+                     forall i, (i < n)%nat -> w i = 0) /\
+  (forall z : vec R, (forall i, (i < n)%nat -> Rsum_n n (fun j => A i j * z j) = 0) ->
+                     forall j, (j < n)%nat -> z j = 0) /\
+  forall y : vec R, (forall i, (i < n)%nat -> Rsum_n n (fun j => A i j * y j) = b i) ->
+                    forall j, (j < n)%nat -> y j = x j.
+Print Assumptions c08_unique.
+
 (* malformed systems get error values; the solver never panics *)
 Theorem c08_shape : forall (h w lb : nat) (A : mat R) (b : vec R) (tol : R),
   (h <> w -> ge h w A lb b tol = Err ENonSquareMatrix) /\
